@@ -449,6 +449,8 @@ RULES['C10'] = 'seeded values of every subject type (valid UTF-8, quiet NaNs) ma
 
 RULES['C11'] = 'per subject type several shared messages (built by struct construction, decoder, fast reflection Set, Clone; mostly-unset variants included); 16 goroutines released by a barrier each run 16 read-only operations (Size, Marshal both modes, Has/Get of every field incl. unset ones, Range, WhichOneof, Equal, Clone-from, Merge-from, protojson with and without EmitUnpopulated, prototext, getters, first use of the table-driven reflection, CheckInitialized, plain struct reads) in a seeded permutation under the Go race detector; the first use of every type is concurrent; results compared with a sequential reader afterwards; distinct by type+round+message'
 
+RULES['C19'] = 'structural part exhaustive per package: registered file descriptors of freshly generated packages compared with the FileDescriptorProto given to the generator (options included); the checked-in packages and cosmos.pb.go compared with the repository .proto files read by a small proto3 reader (package, imports, messages, fields, numbers, kinds, oneofs, maps, nested types, enums, services, custom options, extensions); registry lookups, descriptor identity, Type/New/Zero Go types, struct tags and Go field types vs descriptors, enum String/Number/Descriptor for every declared value; value part: seeded values per type, every getter (also on the nil receiver) vs Get, String() parsed back, Reset(); distinct by file / type / value'
+
 ASSUME = [
     'google.golang.org/protobuf v1.34.0 dynamicpb + proto (reflection codec) is the reference; it and the harness spec codec must agree before a case is decided',
     'the plain-Go-reflection struct reader (struct tags -> field numbers) reads generated structs correctly',
@@ -456,7 +458,7 @@ ASSUME = [
 ]
 
 
-FLOORS = {'C10': (500, 200), 'C09': (300, 300), 'C08': (500, 300), 'C15': (1000000, 100000), 'C16': (500, 200), 'C17': (10000, 5000), 'C18': (300, 200), 'C07': (500, 200), 'C01': (500, 200), 'C02': (500, 200), 'C04': (500, 200), 'C05': (100, 30), 'C03': (500, 200), 'C14': (500, 100)}
+FLOORS = {'C19': (500, 300), 'C10': (500, 200), 'C09': (300, 300), 'C08': (500, 300), 'C15': (1000000, 100000), 'C16': (500, 200), 'C17': (10000, 5000), 'C18': (300, 200), 'C07': (500, 200), 'C01': (500, 200), 'C02': (500, 200), 'C04': (500, 200), 'C05': (100, 30), 'C03': (500, 200), 'C14': (500, 100)}
 
 
 def check_engine(prop, tier, seed, repo, keep):
@@ -997,7 +999,7 @@ CHECKS = {
     'C01': check_engine, 'C02': check_engine, 'C04': check_engine, 'C05': check_engine,
     'C03': check_engine, 'C14': check_engine,
     'C06': check_total, 'C07': check_engine,
-    'C08': check_engine, 'C09': check_engine, 'C10': check_engine, 'C11': check_conc, 'C12': check_gen_total, 'C13': check_gen_determinism, 'C15': check_engine, 'C16': check_engine, 'C17': check_engine, 'C18': check_isolated_engine,
+    'C08': check_engine, 'C09': check_engine, 'C10': check_engine, 'C11': check_conc, 'C12': check_gen_total, 'C13': check_gen_determinism, 'C15': check_engine, 'C16': check_engine, 'C17': check_engine, 'C18': check_isolated_engine, 'C19': check_engine,
 }
 
 
